@@ -327,6 +327,113 @@ def r05_2(prog, rep):
             rep.fail(rid, key, st.loc(), "the parser stores t.%s but send_task never reads it: the attribute is lost when the task is written" % fld)
 
 
+def r05_4b(prog, rep):
+    """RRULE scalar parts: the writer's emission test treats exactly the parser's default (unset) value as `do not write`."""
+    rid = "R05.4"
+    sr = prog.fn("snarf_rrule", "evical.c")
+    # parser defaults from the initialiser of the result
+    defaults = {}
+    for b, i, x, line in sr.cfg.all_elems():
+        if isinstance(x, dict) and x.get("k") == "decl":
+            for d in x["ds"]:
+                ini = strip_casts(sr.cfg.resolve(d["init"])) if d.get("init") is not None else None
+                if ini is not None and ini.get("k") == "init" and "rrulsp_s" in (d.get("t") or ""):
+                    for name, val in ini["fs"]:
+                        v = const_eval(sr, val) if val is not None else 0
+                        defaults[name] = v
+    if "count" not in defaults or "inter" not in defaults:
+        raise AnalysisBroken("snarf_rrule: default initialiser of the rule not found (%s)" % defaults)
+    w = prog.fn("send_rrul", "evical.c")
+    cfg = w.cfg
+    rr = w.params[1]["n"]
+    for part, fld, probe in (("COUNT", "count", (-1, 0, 1, 2, 64, 1000)), ("INTERVAL", "inter", (1, 2, 3, 7, 60))):
+        site = None
+        for S in call_sites(w, "fdprintf"):
+            fmt = str_value(prog, w, S.node["a"][0]) or ""
+            if fmt.startswith(";%s=" % part):
+                site = S
+        key = "send_rrul/%s-sentinel" % part
+        if site is None:
+            rep.fail(rid, key, w.loc(), "send_rrul never writes ;%s=" % part)
+            continue
+        wrong = []
+        for v in probe:
+            hit = []
+
+            def effect(b, i, x, store, _hit=hit):
+                if (b, i) == (site.b, site.i):
+                    _hit.append(1)
+                return None
+            t = "%s->%s" % (rr, fld)
+            should = (v != defaults[fld])
+            # the other integer parameters of the writer (the cached-occurrence count) must not influence the decision
+            others = [p_["n"] for p_ in w.params if p_["t"] in ("size_t", "unsigned int", "int") and p_["n"] != rr]
+            for ov in (0, 3):
+                del hit[:]
+                init = {t: v}
+                init.update({o: ov for o in others})
+                AbsWalk(w, set(init), init=init, effect=effect).run()
+                emitted = bool(hit)
+                if emitted != should:
+                    wrong.append((v, emitted))
+                    break
+        if wrong:
+            v, emitted = wrong[0]
+            rep.fail(rid, key, w.loc(site.line),
+                     "%s=%d is %s although the parser's unset value is %d: %s" % (
+                         part, v, "written" if emitted else "NOT written", defaults[fld],
+                         "an exhausted rule (remaining count 0) comes back without COUNT, i.e. unbounded" if part == "COUNT" and v == 0 else
+                         "the value does not survive a write/read cycle"), {"wrong": wrong})
+        else:
+            rep.ok(rid, key, w.loc(site.line), ";%s= is written for every value except the parser default %d (probed %s)" % (part, defaults[fld], list(probe)))
+
+
+def r05_2b(prog, rep):
+    """Within one parser case, a `first one wins` guard tests the very field the case stores."""
+    rid = "R05.2"
+    fields = _wordlist(prog, "function:__evical_fld", "fldstr")
+    f = prog.fn("snarf_fld", "evical.c")
+    cfg = f.cfg
+    fld = f.params[1]["n"]
+    sw = None
+    for b, blk in sorted(cfg.blocks.items(), reverse=True):
+        if blk.term and blk.term["kind"] == "switch" and lv(cfg.resolve(blk.term.get("on"))) == fld:
+            if sw is None or len(blk.succs) > len(cfg.blocks[sw].succs):
+                sw = b
+    n = 0
+    for kw, w in sorted(fields.items()):
+        stored, guards = set(), set()
+
+        def effect(b, i, x, store, _s=stored):
+            for l, kind, nn in writes(x):
+                t = lv(l)
+                if t.startswith("ve->t."):
+                    _s.add(t[len("ve->t."):])
+            return None
+        wk = AbsWalk(f, {fld}, init={fld: w["fld"]}, effect=effect)
+        wk.run(start_block=sw)
+        visited = {k[0] for k in wk.visited}
+        for b in visited:
+            c = cfg.cond(b)
+            if c is None or b == sw:
+                continue
+            for nn in walk(c):
+                if nn.get("k") == "mem" and lv(nn).startswith("ve->t.") and not any(True for _ in calls(c)):
+                    guards.add(lv(nn)[len("ve->t."):])
+        guards = {g for g in guards if not any(o != g and o.startswith(g + ".") for o in guards)}
+        if not guards or not stored:
+            continue
+        n += 1
+        key = "snarf_fld/%s/guard-field" % kw
+        if guards <= stored:
+            rep.ok(rid, key, f.loc(), "%s: guard on t.%s, stores t.%s" % (kw, sorted(guards), sorted(stored)))
+        else:
+            rep.fail(rid, key, f.loc(), "case %s stores t.%s but its guard tests t.%s: whether the value is kept depends on another attribute" % (
+                kw, sorted(stored), sorted(guards - stored)))
+    if n < 3:
+        rep.broken_("rule=R05.2 expected >=3 guarded parser cases, found %d" % n)
+
+
 def r05_5(prog, rep):
     rid = "R05.5"
     cls = classes(prog)
@@ -371,10 +478,12 @@ def run(prog, rep, tier, snap):
     r05_1(prog, rep)
     rep.rule("R05.2", "field pairing between parser cases and send_task", 20)
     r05_2(prog, rep)
+    r05_2b(prog, rep)
     rep.rule("R05.3", "nominal typing of the container family (shared with C19)", 30)
     bitint.r05_3(prog, rep)
     rep.rule("R05.4", "sentinel encodings of umask and max-simul round-trip over the whole field domain", 8)
     encodings.r05_4(prog, rep)
+    r05_4b(prog, rep)
     rep.rule("R05.5", "every freed/cloned sub-stream is serialised", 3)
     r05_5(prog, rep)
 READY = True
